@@ -7,6 +7,8 @@
 
 #include <pika/synchronization/mutex.hpp>
 
+#include <pika/config/verif_hooks.hpp>
+
 #include <pika/assert.hpp>
 #include <pika/concurrency/spinlock.hpp>
 #include <pika/coroutines/thread_enums.hpp>
@@ -45,6 +47,7 @@ namespace pika {
 
         while (owner_id_ != threads::detail::invalid_thread_id)
         {
+            PIKA_VERIF_POINT(::pika::verif::mtx_lock_wait, this);
             cond_.wait(l, ec);
             if (ec) { return; }
         }
@@ -89,6 +92,7 @@ namespace pika {
         {
             [[maybe_unused]] util::ignore_while_checking il(&l);
 
+            PIKA_VERIF_POINT(::pika::verif::mtx_unlock_notify, this);
             cond_.notify_one(std::move(l), execution::thread_priority::boost, ec);
         }
     }
@@ -111,6 +115,7 @@ namespace pika {
         threads::detail::thread_id_type self_id = pika::threads::detail::get_self_id();
         if (owner_id_ != threads::detail::invalid_thread_id)
         {
+            PIKA_VERIF_POINT(::pika::verif::mtx_timed_wait, this);
             pika::threads::detail::thread_restart_state const reason =
                 cond_.wait_until(l, abs_time, ec);
             if (ec) { return false; }
